@@ -10,6 +10,7 @@ from __future__ import annotations
 
 import ast
 
+from .. import flow
 from ..astutil import body_walk, call_name, call_recv, calls_in, fstring_parts, merge_consts, names_in, norm, strip_await, walk_no_nested
 from ..shape import NO, TOP, YES, Shapes, paren_balance, quoted_holes
 from .common import env_of, is_push_call, parmap, typer, where
@@ -586,9 +587,91 @@ def r7_8(ctx):
     ctx.floor("R7.8", n, 3, "CR/LF-removing helpers")
 
 
+_LITERAL_TAILS = ["x {7}", "{0}", "a {3}  {7}", "reports{12}", "INBOX {12+}", "{00012}", "{99999999999}"]
+
+
+def _regex_of(p, fi, e):
+    """(pattern text, method) of a regex test `R.search(x)` / `re.search(C, x)` whose pattern is a constant."""
+    if not isinstance(e, ast.Call) or not isinstance(e.func, ast.Attribute) or e.func.attr not in ("search", "match", "fullmatch"):
+        return None
+    recv = e.func.value
+    if isinstance(recv, ast.Name) and recv.id == "re" and e.args and isinstance(e.args[0], ast.Constant) and isinstance(e.args[0].value, str):
+        return e.args[0].value, e.func.attr
+    if isinstance(recv, ast.Name):
+        for s in p.modules[fi.module].tree.body:
+            if isinstance(s, ast.Assign) and len(s.targets) == 1 and isinstance(s.targets[0], ast.Name) and s.targets[0].id == recv.id:
+                v = s.value
+                if isinstance(v, ast.Call) and call_name(v) == "compile" and v.args and isinstance(v.args[0], ast.Constant) and isinstance(v.args[0].value, str):
+                    return v.args[0].value, e.func.attr
+    return None
+
+
+def r7_9(ctx):
+    """A status line ends with its text, and the text often ends with something the client chose (R7.4: it reaches the line
+    through oneline()).  `{<digits>}` or `{<digits>+}` in front of the CRLF is how a literal is announced: a client that
+    frames the stream takes the octets that follow for literal data.  oneline() therefore tests its result for such an ending
+    - on every path, after the line breaks were replaced - and appends something that is not a `}` when it finds one."""
+    import re as _re
+
+    p = ctx.p
+    fi = p.func("utils.oneline")
+    ctx.analysed(fi)
+    g = ctx.cfg(fi)
+    found = None
+    for n in ast.walk(fi.node):
+        test = body = None
+        if isinstance(n, ast.If):
+            test, body = n.test, n.body
+        elif isinstance(n, ast.IfExp):
+            test, body = n.test, [n.body]
+        if test is None:
+            continue
+        rx = None
+        for c in ast.walk(test):
+            rx = rx or _regex_of(p, fi, c)
+        if rx is None:
+            continue
+        pat, how = rx
+        try:
+            cre = _re.compile(pat)
+        except _re.error:
+            continue
+        missed = [s for s in _LITERAL_TAILS if not getattr(cre, how)(s)]
+        # what the guarded arm appends
+        suffix = None
+        for b in body:
+            for x in ast.walk(b):
+                if isinstance(x, ast.AugAssign) and isinstance(x.op, ast.Add) and isinstance(x.value, ast.Constant) and isinstance(x.value.value, str):
+                    suffix = x.value.value
+                elif isinstance(x, ast.BinOp) and isinstance(x.op, ast.Add) and isinstance(x.right, ast.Constant) and isinstance(x.right.value, str):
+                    suffix = x.right.value
+        found = (n, pat, missed, suffix)
+        break
+    if found is None:
+        ctx.bad("R7.9", fi.module, fi.qual, "if <text ends like a literal announcement>: text += '.'", "oneline() no longer tests its result for a trailing `{<digits>}`: an error text that ends in a mailbox name such as `reports{12}` makes the NO line announce a literal that never follows (the client swallows the next response)", fi.node.lineno)
+        return
+    n, pat, missed, suffix = found
+    if missed:
+        ctx.bad("R7.9", fi.module, fi.qual, f"regex {pat!r}", f"the test for a trailing literal announcement does not recognise {missed[0]!r}", n.lineno)
+    elif not suffix or suffix.rstrip().endswith("}") or _re.search(r"\{\d+\+?\}$", "{7}" + suffix):
+        ctx.bad("R7.9", fi.module, fi.qual, f"appends {suffix!r}", "what oneline() appends to a text that ends like a literal announcement does not take the ending away", n.lineno)
+    else:
+        # the test is on every path to a return, behind the CR/LF replacement
+        tn = [x.id for x in g.nodes if x.ast is not None and x.kind in ("test", "stmt", "return") and any(y is n or (isinstance(n, ast.If) and y is n.test) for y in ast.walk(x.ast))]
+        rets = {x.id for x in g.nodes if x.kind == "return"}
+        ctx.require(tn and rets, "oneline(): test / return nodes not found")
+        seen = flow.reach(g, [g.entry], flow.NORMAL, avoid=lambda x: x in tn)
+        skipped = [r for r in rets if r in seen and r not in tn]
+        if skipped:
+            ctx.bad("R7.9", fi.module, fi.qual, "return before the test", "oneline() can return a text without testing it for a trailing literal announcement", g.nodes[skipped[0]].line)
+        else:
+            ctx.ok("R7.9", where(fi), f"result tested with {pat!r} on every path; {suffix!r} appended")
+
+
 def _run_extra(ctx):
     ctx.do(r7_4b)
     ctx.do(r7_8)
+    ctx.do(r7_9)
 
 
 def run(ctx):
